@@ -44,6 +44,9 @@ func drawWorkload(t *core.Tape, kind int) wlInput {
 		in.kind = kind
 	}
 	c := corpus[wlLang[in.kind]]
+	if extraCorpus != nil && len(extraCorpus[wlLang[in.kind]]) > 0 && t.Chance(1, 2) {
+		c = extraCorpus[wlLang[in.kind]] // literals of the library's own unit tests
+	}
 	d := []byte(c[t.Draw(len(c))])
 	switch t.Draw(4) {
 	case 1: // splice with another entry
